@@ -17,6 +17,29 @@ ops, raw Quinn peer:
   pbg / pjoin   read everything in the background / its result -> peer=<len>:<hash>:fin | reset:<c> | stopped
   pstop:c  pw:n:seed  pfin  prst:c  prstnow:c  pstopped  pclose:c  pclosed  settle:ms
 
+Second part (directed at adapter code the first part never reached):
+cfg: `split=0` keep the bidirectional stream under test UNSPLIT (every op then goes through `BidiStream`'s
+delegating impls) until op `split`; `mb=n` / `mu=n` the peer's max_concurrent_bidi/uni_streams = how many
+streams the adapter side may open; `dga=0` / `dgp=0` datagrams disabled on the adapter / peer side;
+`hs=rej|kill|z0|z0r|z0t|z0v` special connection set-ups that make real Quinn raise ConnectionClosed, Reset
+(stateless reset), nothing (0-RTT accepted), ZeroRttRejected, TransportError, VersionMismatch.
+ops, adapter side:
+  ob1:W / ob:W / ou1:W / ou:W   poll_open_bidi / poll_open_send once / awaited, through W = c (the Connection),
+                o (`Connection::opener()`), k (a clone of that opener)          -> ob=<id>|pending|err:<class>
+  otag:n:seed   one DATA frame (n+j bytes) + finish on every stream opened by ob/ou and not yet used (the
+                bidirectional ones through the unsplit stream)                   -> otag=<count>
+  ab1 / ab / ar1 / ar   poll_accept_bidi / poll_accept_recv once / awaited         -> ab=<id>|pending|err:<class>
+  oclose:W:code:reasonhex   OpenStreams::close(code, reason) through W
+  ub:n:seed[:cut]   the caller's unframed buffer (two chunks when cut is given)
+  ps1 / ps / psall  poll_send once / awaited / until the buffer is empty       -> ps1=<written>|pending|refused|err:<class> /<left>
+  split   z0 (is_0rtt)   zacc (was 0-RTT accepted)
+  dgs:sid:n:seed  send_datagram     dgr1 / dgr  poll_incoming_datagram once / awaited
+ops, raw Quinn peer:
+  pmb:n / pmu:n   set max_concurrent_bi/uni_streams    pob / pou   open one more stream (one byte written)
+  pacc:bi|uni:n   accept the next n streams, read each to the end -> pacc=<id>:<len>:<hash>:fin,...
+  pclosedr   like pclosed, with the reason    pdg / pdgs:n:seed  read / send a datagram
+  pkill   (hs=kill) the peer's endpoint disappears; a fresh endpoint with the same reset key takes its port
+
 The generator stays inside the region where Quinn's behaviour is a function of the scenario (no races):
 see the comments on each template."""
 from vlib import Prop
@@ -49,7 +72,7 @@ class Gen:
     def seed(self):
         return self.rng.randrange(0, 2**32)
 
-    def cfg(self, send=False, recv=False, sw=0, cw=0, tw=0, idle=0, need_peer_send=False):
+    def cfg(self, send=False, recv=False, sw=0, cw=0, tw=0, idle=0, need_peer_send=False, skip_max=None, extra=()):
         """a stream shape that has the halves the template needs."""
         r = self.rng
         shapes = []
@@ -62,6 +85,8 @@ class Gen:
                 shapes.append((role, "uni", "acc"))
         role, kind, d = r.choice(shapes)
         skip = r.choice([0, 0, 0, 1, 2, 3, 5, 17])
+        if skip_max is not None:
+            skip = min(skip, skip_max)
         parts = []
         if sw:
             parts.append("sw=%d" % sw)
@@ -74,7 +99,23 @@ class Gen:
             parts.append("skip=%d" % skip)
         if idle:
             parts.append("idle=%d" % idle)
-        return ",".join(parts), (role, kind, d)
+        if kind == "bi" and r.random() < 0.3:
+            parts.append("split=0")      # the unsplit BidiStream: same ops, delegating impls
+        parts += list(extra)
+        return ",".join(parts), (role, kind, d, skip)
+
+    def line(self, cfg, ops):
+        """an unsplit stream is split at some point (or never); `dropr` needs the halves"""
+        ops = list(ops)
+        if "split=0" in cfg.split(","):
+            hi = ops.index("dropr") if "dropr" in ops else len(ops)
+            if "dropr" in ops or self.rng.random() < 0.6:
+                ops.insert(self.rng.randrange(0, hi + 1), "split")
+        if self.rng.random() < 0.15 and any(o in ("rid", "pd1", "rdall") for o in ops):
+            ops.insert(self.rng.randrange(0, len(ops) + 1), "z0")
+            if "dropr" in ops and ops.index("z0") > ops.index("dropr"):
+                ops.remove("z0")
+        return "quinn %s %s" % (cfg, " ".join(ops))
 
     def frame(self, sizes):
         r = self.rng
@@ -112,7 +153,7 @@ class Gen:
             ops.append("w:%s:%d:%d" % (f, n, self.seed()))
             ops += self.idq(shape, 0.3)
         ops += ["fin"] + self.idq(shape, 0.5) + ["pjoin"] + self.idq(shape, 0.3)
-        return "quinn %s %s" % (cfg, " ".join(ops))
+        return self.line(cfg, ops)
 
     def t_write_noreader(self):
         """small writes that fit into the default windows; the peer only starts reading afterwards."""
@@ -123,7 +164,7 @@ class Gen:
             f, n = self.frame([0, 1, 2, 100, 1024])
             ops.append("w:%s:%d:%d" % (f, n, self.seed()))
         ops += ["fin", "pbg", "pjoin"]
-        return "quinn %s %s" % (cfg, " ".join(ops))
+        return self.line(cfg, ops)
 
     def t_refuse(self, trunc=False):
         """flow-control budget W = min(sw, cw) smaller than the first buffer and nobody reading: the first
@@ -140,20 +181,20 @@ class Gen:
         if trunc:
             # poll_finish does not look at `writing`: the peer gets the accepted prefix and FIN
             ops += ["fin", "pbg", "pjoin", "pr1", "sd:D:1:1"] + self.idq(shape)
-            return "quinn %s %s" % (cfg, " ".join(ops))
+            return self.line(cfg, ops)
         ops += ["%s:D:%d:%d" % (r.choice(["sd", "w"]), r.choice([0, 1, 50]), self.seed()), "pr1"] + self.idq(shape)
         ops += ["pbg", "pr"]
         if r.random() < 0.7:
             ops += ["sd:H:%d:%d" % (r.choice([0, 3, 2000]), self.seed()), "pr"]
         ops += ["fin", "pjoin"]
-        return "quinn %s %s" % (cfg, " ".join(ops))
+        return self.line(cfg, ops)
 
     def t_ids(self):
         """only identifiers: every role / kind / direction / index."""
         r = self.rng
         cfg, shape = self.cfg(send=r.random() < 0.5, recv=r.random() < 0.5)
         ops = self.idq(shape, 1.0) * 2
-        return "quinn %s %s" % (cfg, " ".join(ops))
+        return self.line(cfg, ops)
 
     def t_read_ids(self, sizes):
         """recv_id in every read state: idle, read pending, read cancelled, after data, after the end."""
@@ -171,7 +212,7 @@ class Gen:
         ops += ["pfin", "rid", "rdall", "rid", "pd1", "rid"]
         if r.random() < 0.3:
             ops += ["stop:%d" % self.code(), "pd1", "rid"]
-        return "quinn %s %s" % (cfg, " ".join(ops))
+        return self.line(cfg, ops)
 
     def t_reset(self):
         """the peer resets its sending side with an arbitrary code, after all queued data (`prst`) or in
@@ -191,7 +232,7 @@ class Gen:
                 ops += ["pw:%d:%d" % (r.choice([1, 10, 3000, 70000]), self.seed())]
             ops += ["prst:%d" % c]
         ops += ["rdall", "rid", "pd1", "rid"]
-        return "quinn %s %s" % (cfg, " ".join(ops))
+        return self.line(cfg, ops)
 
     def t_stop(self):
         """the peer stops reading with an arbitrary code while a write is blocked on flow control."""
@@ -202,7 +243,7 @@ class Gen:
         n = w + r.choice([1, 100, 70000])
         ops = ["sd:%s:%d:%d" % (r.choice("DH"), n, self.seed()), "pr1"] + self.idq(shape)
         ops += ["pstop:%d" % c, "pr", "sid", "sd:D:1:1", "pr1", "pr", "fin", "sid"]
-        return "quinn %s %s" % (cfg, " ".join(ops))
+        return self.line(cfg, ops)
 
     def t_close(self):
         """the peer closes the connection with an arbitrary application code while a write is blocked
@@ -222,7 +263,7 @@ class Gen:
             cfg, shape = self.cfg(send=True, recv=True, sw=w)
             ops = ["sd:D:%d:%d" % (w + r.choice([1, 5000]), self.seed()), "pr1", "pd1", "sid", "rid", "pclose:%d" % c]
             ops += r.choice([["pr", "pd"], ["pd", "pr"], ["rdall", "pr"]]) + ["sid", "rid", "pr1", "pd1", "pclosed"]
-        return "quinn %s %s" % (cfg, " ".join(ops))
+        return self.line(cfg, ops)
 
     def t_idle(self):
         """nothing happens for longer than max_idle_timeout."""
@@ -238,7 +279,7 @@ class Gen:
         else:
             cfg, shape = self.cfg(send=True, recv=True, sw=16, idle=idle)
             ops = ["sd:D:100:%d" % self.seed(), "pr1", "pd1", "pr", "sid", "rid", "pd", "pd1", "pr1", "pclosed"]
-        return "quinn %s %s" % (cfg, " ".join(ops))
+        return self.line(cfg, ops)
 
     def t_local(self):
         """conditions of the adapter side's own making: closed connection, stopped / finished / reset
@@ -267,7 +308,7 @@ class Gen:
         else:
             cfg, shape = self.cfg(recv=True)
             ops = ["rid", "stop:%d" % r.choice([2**62, 2**63, 2**64 - 1]), "rid", "pd1", "rid"]
-        return "quinn %s %s" % (cfg, " ".join(ops))
+        return self.line(cfg, ops)
 
     def t_stop_pending(self):
         """stop_sending while the read future owns the stream: remembered, applied when the stream comes
@@ -287,6 +328,289 @@ class Gen:
             ops += ["dropr", "pstopped"]
         else:
             ops += ["pw:%d:%d" % (r.choice([1, 3, 8]), self.seed()), "rdall", "rid"]
+        return self.line(cfg, ops)
+
+    # ------------------------------------------------------------------ templates, second part
+
+    def who(self):
+        return self.rng.choice("cok")
+
+    def reason(self):
+        r = self.rng
+        n = r.choice([0, 1, 5, 40, 200])
+        return "".join("%02x" % r.randrange(256) for _ in range(n)) or "-"
+
+    def t_open(self):
+        """streams opened THROUGH the adapter (Connection, opener(), a clone) under a stream limit: the
+        credit is used up, the next polls are Pending through several openers, the peer raises the limit
+        (awaited poll: Pending then Ready), the credit is used up again; every opened stream is written
+        and finished (bidirectional ones through the unsplit stream) and the peer must accept exactly
+        these streams, each once, with these bytes.  For unidirectional streams the peer's reading them
+        to the end gives the credit back."""
+        r = self.rng
+        bi = r.random() < 0.5
+        cfg0, shape = self.cfg(send=True, recv=r.random() < 0.5, skip_max=3)
+        role, kind, d, skip = shape
+        base = skip + 1 if (d == "open" and (kind == "bi") == bi) else 0
+        m = base + r.choice([0, 1, 2, 3])
+        if not bi:
+            m = min(m, 5)          # m + up <= 7
+            if m < base:
+                bi = True
+                m = base
+        cfg = cfg0 + (",mb=%d" if bi else ",mu=%d") % m
+        o1, o = ("ob1", "ob") if bi else ("ou1", "ou")
+        ops = []
+        n = 0
+        for _ in range(m - base):
+            ops.append("%s:%s" % (r.choice([o1, o]), self.who()))
+            n += 1
+        w1 = self.who()
+        ops += ["%s:%s" % (o1, w1), "%s:%s" % (o1, self.who())]
+        # Quinn announces new stream credit only when it exceeds 1/8 of max_concurrent: stay where every
+        # increment is announced (unidirectional: credit comes back one stream at a time) or make it big enough
+        up = r.choice([1, 2])
+        if bi and m + up >= 8:
+            up = 2
+        ops += ["%s:%d" % ("pmb" if bi else "pmu", m + up), "%s:%s" % (o, r.choice([w1, self.who()]))]
+        n += 1
+        for _ in range(up - 1):
+            ops.append("%s:%s" % (o1, self.who()))
+            n += 1
+        ops += ["%s:%s" % (o1, self.who())]
+        if n:
+            if r.random() < 0.5:
+                k = r.randrange(0, n + 1)
+                ops += ["otag:%d:%d" % (r.choice([0, 1, 30]), self.seed())] if k else []
+                ops += ["otag:%d:%d" % (r.choice([0, 1, 30]), self.seed())]      # nothing left: otag=0
+            else:
+                ops += ["otag:%d:%d" % (r.choice([0, 1, 30]), self.seed())]
+            k = r.randrange(1, n + 1)
+            ops += ["pacc:%s:%d" % ("bi" if bi else "uni", k)]
+            if n - k:
+                ops += ["pacc:%s:%d" % ("bi" if bi else "uni", n - k)]
+            if not bi:
+                # the peer has read n streams to the end: n more may be opened, then no more
+                back = r.randrange(1, n + 1)
+                ops += ["%s:%s" % (o, self.who()), "settle:30"] + ["%s:%s" % (o1, self.who()) for _ in range(back - 1)]
+                if back == n:
+                    ops += ["%s:%s" % (o1, self.who())]
+        return "quinn %s %s" % (cfg, " ".join(ops))
+
+    def t_open_err(self):
+        """opening and accepting after the connection failed: peer close with an arbitrary code, idle
+        timeout, own close through an opener (with a reason the peer must see together with exactly the
+        code) — through every opener, plus streams that arrived before the failure (Quinn drains them)."""
+        r = self.rng
+        how = r.choice(["pclose", "pclose", "idle", "oclose", "oclose", "aclose"])
+        c = self.code()
+        cfg, shape = self.cfg(send=r.random() < 0.7, recv=r.random() < 0.5, idle=r.choice([300, 400]) if how == "idle" else 0)
+        ops = []
+        if r.random() < 0.5:
+            ops += ["%s:%s" % (r.choice(["ob1", "ou1"]), self.who())]
+        if r.random() < 0.5:
+            ops += [r.choice(["ab1", "ar1"])]
+        arrived = []
+        if how != "idle" and r.random() < 0.5:
+            arrived = [r.choice(["pob", "pou"]) for _ in range(r.randrange(1, 3))]
+            ops += arrived + ["settle:30"]
+        if how == "pclose":
+            # something that waits makes the close known (an open would succeed at once)
+            ops += ["pclose:%d" % c, r.choice(["ab", "ar", "dgr", "settle:40"])] if not arrived else ["pclose:%d" % c, "settle:40"]
+        elif how == "idle":
+            ops += [r.choice(["ab", "ar", "dgr"])]
+        elif how == "oclose":
+            ops += ["oclose:%s:%d:%s" % (self.who(), c, self.reason()), "pclosedr"]
+        else:
+            ops += ["aclose:%d" % c, "pclosed"]
+        tail = ["ob1:c", "ob1:o", "ob1:k", "ou1:c", "ou1:o", "ou1:k", "ab1", "ar1", "ob:%s" % self.who(), "ou:%s" % self.who(), "ab", "ar"]
+        r.shuffle(tail)
+        tail = tail[:r.randrange(3, 9)]
+        if arrived:
+            # the streams that arrived are handed out first, then the error
+            tail = [("ab" if x == "pob" else "ar") for x in arrived] + tail
+        ops += tail
+        if how in ("oclose", "aclose") and r.random() < 0.3:
+            ops += ["oclose:%s:%d:%s" % (self.who(), self.code(), self.reason()), "pclosedr"]    # the first close stands
+        return "quinn %s %s" % (cfg, " ".join(ops))
+
+    def t_close_bad(self):
+        r = self.rng
+        cfg, shape = self.cfg(send=True)
+        return "quinn %s oclose:%s:%d:%s ob1:o" % (cfg, self.who(), r.choice([2**62, 2**63, 2**64 - 1]), self.reason())
+
+    def t_accept(self):
+        """streams the peer opens are accepted through the adapter in order, each once, with the ids
+        RFC 9000 gives them; nothing there: Pending."""
+        r = self.rng
+        cfg, shape = self.cfg(send=r.random() < 0.5, recv=True, skip_max=5)
+        ops = [r.choice(["ab1", "ar1"])]
+        seq = [r.choice(["pob", "pou"]) for _ in range(r.randrange(1, 5))]
+        if r.random() < 0.5:
+            for x in seq:
+                ops += [x, "ab" if x == "pob" else "ar"]
+        else:
+            ops += seq + [("ab" if x == "pob" else "ar") for x in r.sample(seq, len(seq))]
+        ops += ["ab1", "ar1"]
+        return "quinn %s %s" % (cfg, " ".join(ops))
+
+    def ub(self, n, chunks=True):
+        r = self.rng
+        if chunks and n > 0 and r.random() < 0.5:
+            return "ub:%d:%d:%d" % (n, self.seed(), r.randrange(0, n + 1))
+        return "ub:%d:%d" % (n, self.seed())
+
+    def t_unframed(self, sizes, windows):
+        """the raw write path WebTransport uses: whatever is handed to poll_send reaches the peer exactly
+        once, complete and in order, also between framed writes, whatever the windows and however the
+        caller's buffer is chunked (the peer reads in the background, the loop runs like write_all)."""
+        r = self.rng
+        sw, cw, tw = r.choice(windows)
+        cfg, shape = self.cfg(send=True, sw=sw, cw=cw, tw=tw)
+        ops = self.idq(shape) + ["pbg"]
+        for _ in range(r.randrange(1, 5)):
+            if r.random() < 0.3:
+                f, n = self.frame(sizes)
+                ops.append("w:%s:%d:%d" % (f, n, self.seed()))
+            else:
+                ops += [self.ub(r.choice(sizes)), "psall"]
+            ops += self.idq(shape, 0.2)
+        ops += ["fin", "pjoin"]
+        return self.line(cfg, ops)
+
+    def t_unframed_partial(self):
+        """nobody reads and the budget W = min(sw, cw) is smaller than the buffer: each poll_send takes what
+        fits of the chunk it is offered and advances the caller's buffer by exactly that; then Pending."""
+        r = self.rng
+        w = r.choice([1, 2, 3, 7, 16, 64, 1000])
+        sw, cw = r.choice([(w, 0), (w, w * 4), (w, w), (w * 4, w)])
+        cfg, shape = self.cfg(send=True, sw=sw, cw=cw)
+        n = w + r.choice([1, 2, 100, 5000])
+        cut = r.choice([0, 1, w // 2, w, w + 1, n])
+        ops = ["ub:%d:%d:%d" % (n, self.seed(), min(cut, n))]
+        ops += ["ps1"] * r.randrange(2, 5) + self.idq(shape)
+        ops += ["pbg", "psall"]
+        if r.random() < 0.5:
+            ops += [self.ub(r.choice([0, 1, 300])), "psall"]
+        ops += ["fin", "pjoin"]
+        return self.line(cfg, ops)
+
+    def t_unframed_guard(self):
+        """poll_send while a framed write is unfinished (send_data accepted, poll_ready Pending): refused
+        like a second send_data, nothing interleaved; once the framed write is through, accepted."""
+        r = self.rng
+        w = r.choice([1, 2, 3, 7, 16, 64, 1000])
+        cfg, shape = self.cfg(send=True, sw=w, cw=r.choice([0, w * 4]))
+        n1 = w + r.choice([0, 1, 100, 5000])
+        ops = ["sd:%s:%d:%d" % (r.choice("DH"), n1, self.seed())]
+        if r.random() < 0.7:
+            ops += ["pr1"]
+        ops += [self.ub(r.choice([1, 3, 500])), r.choice(["ps1", "ps", "psall"])] + self.idq(shape)
+        if r.random() < 0.5:
+            ops += [r.choice(["ps1", "psall"]), "sd:D:1:1"]
+        ops += ["pbg", "pr", "psall", "fin", "pjoin"]
+        return self.line(cfg, ops)
+
+    def t_unframed_err(self):
+        """what poll_send reports when the write fails: the peer's stop (code preserved), the peer's close
+        (code preserved), the idle timeout, and the conditions of the adapter side's own making."""
+        r = self.rng
+        how = r.choice(["pstop", "pstop", "pclose", "pclose", "idle", "aclose", "fin", "rst"])
+        c = self.code()
+        w = r.choice([1, 7, 16, 64, 1000])
+        n = w + r.choice([1, 100, 70000])
+        if how in ("pstop", "pclose", "idle"):
+            cfg, shape = self.cfg(send=True, sw=w, cw=r.choice([0, w * 2]), idle=r.choice([300, 400]) if how == "idle" else 0)
+            ops = [self.ub(n), "ps1", "ps1"] + self.idq(shape)
+            if how != "idle":
+                ops += ["%s:%d" % (how, c)]
+            ops += [r.choice(["ps", "psall"]), "sid", r.choice(["ps1", "psall"])]
+            # a later framed write meets the same condition; nothing is refused because of the failure
+            ops += ["sd:D:1:1", "pr1", "sd:D:2:2", "pr", "sid"]
+        else:
+            cfg, shape = self.cfg(send=True)
+            ops = ["w:D:1:1", self.ub(r.choice([1, 50]))]
+            ops += {"aclose": ["aclose:%d" % c], "fin": ["fin"], "rst": ["rst:%d" % c]}[how]
+            ops += [r.choice(["ps1", "ps", "psall"]), "sid", "ps1"]
+        return self.line(cfg, ops)
+
+    def t_datagram(self):
+        """h3_quinn::datagram: what send_datagram is given (quarter stream id + payload) arrives as one
+        datagram; what the peer sends is handed out unchanged; the error classes of both handlers."""
+        r = self.rng
+        how = r.choice(["ok", "ok", "off-a", "off-p", "pclose", "idle", "aclose"])
+        extra = {"off-a": ["dga=0"], "off-p": ["dgp=0"]}.get(how, [])
+        cfg, shape = self.cfg(send=r.random() < 0.5, recv=r.random() < 0.5, idle=r.choice([300, 400]) if how == "idle" else 0, extra=extra)
+        sid = lambda: 4 * r.choice([0, 1, 15, 16, 4095, 4096, 2**28, 2**60 - 1])
+        c = self.code()
+        ops = []
+        if how.startswith("off"):
+            ops = ["dgs:%d:%d:%d" % (sid(), r.choice([0, 5]), self.seed()), "dgr1"]
+        else:
+            for _ in range(r.randrange(1, 4)):
+                k = r.random()
+                if k < 0.45:
+                    ops += ["dgs:%d:%d:%d" % (sid(), r.choice([0, 1, 100, 1000]), self.seed()), "pdg"]
+                elif k < 0.85:
+                    ops += ["pdgs:%d:%d" % (r.choice([0, 1, 100, 1000]), self.seed()), "dgr"]
+                else:
+                    ops += ["dgs:%d:%d:%d" % (sid(), r.choice([2000, 65536]), self.seed())]
+            ops += ["dgr1"]
+            if how == "pclose":
+                ops += ["pclose:%d" % c, "dgr", "dgs:0:1:1", "dgr1"]
+            elif how == "idle":
+                ops += ["dgr", "dgs:0:1:1", "dgr1"]
+            elif how == "aclose":
+                ops += ["aclose:%d" % c, "dgr1", "dgs:0:1:1", "dgr"]
+        return "quinn %s %s" % (cfg, " ".join(ops))
+
+    def t_special(self):
+        """connection set-ups in which real Quinn raises the conditions a well-behaved peer never causes:
+        rej   the client aborts the handshake (bad certificate) after the adapter side took the connection in
+              0.5-RTT: ConnectionClosed;  kill  the peer's endpoint is replaced: stateless reset, Reset;
+        z0    0-RTT accepted (is_0rtt);  z0r  0-RTT rejected: ZeroRttRejected on the 0-RTT streams;
+        z0t   … and the new server's certificate is refused by the adapter side's own Quinn: TransportError;
+        z0v   … and the new server speaks another QUIC version: VersionMismatch."""
+        r = self.rng
+        hs = r.choice(["rej", "kill", "z0", "z0r", "z0t", "z0v"])
+        conn_ops = ["ob1:c", "ob1:o", "ou1:k", "ou1:c", "ab1", "ar1", "dgr1", "dgs:0:1:1", "ob:%s" % self.who(), "ar", "ab"]
+        if hs == "rej":
+            ops = []
+            if r.random() < 0.5:
+                ops += [r.choice(["ob1:c", "ou1:o", "ob1:k"])]      # 0.5-RTT streams before the abort is known
+            ops += [r.choice(["ab", "ar", "dgr"])] + r.sample(conn_ops, r.randrange(2, 7))
+            return "quinn hs=rej,role=s %s" % " ".join(ops)
+        kind = r.choice(["bi", "bi", "uni"])
+        skip = r.choice([0, 0, 1, 3])
+        cfg = "hs=%s,role=c,kind=%s,dir=open" % (hs, kind) + (",skip=%d" % skip if skip else "") + \
+            (",split=0" if kind == "bi" and r.random() < 0.4 else "")
+        rd = kind == "bi"
+        if hs == "kill":
+            # before the peer disappears everything the adapter side sent is acknowledged (a round trip where
+            # there is a way back, a pause otherwise): a retransmission would meet the new endpoint too early
+            ops = ["pbg", "w:D:%d:%d" % (r.choice([1, 5]), self.seed())] + (["pw:1:1", "pd"] if rd else []) + ["settle:50", "pkill", "sid"]
+            ops += ["w:D:%d:%d" % (r.choice([100, 500]), self.seed())]
+            # the reset surfaces on something that waits
+            ops += [r.choice(["pd", "rdall", "ab"]) if rd else r.choice(["ab", "ar", "dgr"])]
+            ops += (["rid"] if rd else []) + ["sid", "sd:D:1:1", "pr1", "sd:D:1:1", "pr"] + r.sample(conn_ops[:8], 3)
+            if rd:
+                ops += ["pd1"]
+            return "quinn %s %s" % (cfg, " ".join(ops))
+        if hs == "z0":
+            ops = ["zacc"] + (["z0", "rid"] if rd else []) + ["sid", "pbg", "w:D:%d:%d" % (r.choice([0, 5, 1000]), self.seed())]
+            if r.random() < 0.5:
+                ops += [self.ub(r.choice([1, 300])), "psall"]
+            ops += ["fin", "pjoin"] + (["z0"] if rd else [])
+            return "quinn %s %s" % (cfg, " ".join(ops))
+        # z0r / z0t / z0v: the 0-RTT stream is dead, its identifiers are not
+        ops = ["zacc"] + (["z0", "rid"] if rd else []) + ["sid"]
+        ops += [self.ub(3)]
+        body = ["w:D:%d:%d" % (r.choice([0, 5]), self.seed()), "sd:D:1:1", "pr1", "pr", "ps1", "ps", "psall", "sid"]
+        if rd:
+            body += ["pd1", "pd", "rdall", "pdc", "rid", "stop:%d" % self.code(), "rid"]
+        r.shuffle(body)
+        ops += body[:r.randrange(3, 9)]
+        ops += r.sample(conn_ops[:8], r.randrange(2, 5))
         return "quinn %s %s" % (cfg, " ".join(ops))
 
 
@@ -296,27 +620,49 @@ class C17(Prop):
     modules = ["H3.Props.C17"]
     engines = ["quinn"]
     design_ref = "DESIGN.md section 7, C17"
-    level_text = ("PARTIAL: Lean theorems over a model of the adapter's own logic (h3-quinn/src/lib.rs + WriteBuf): the write loop "
-                  "against every acceptance script of poll_write (pending / partial ok / error, any number of poll_ready calls): "
-                  "accepted bytes ++ held bytes = buffer, Ready(Ok) iff whole buffer, an error is the last call, a second send_data "
-                  "is refused unchanged; the receive ownership machine over every operation sequence: recv_id = creation id, never "
-                  "panics, a stop during a pending read is issued exactly once when the stream comes back and never twice; the three "
-                  "error conversions as finite tables (application close / timeout / reset / stop <-> the four h3 classes, code "
-                  "preserved) which are also compared with the match arms re-extracted from the source. Quinn, UDP and tokio are "
-                  "outside the model: that real Quinn delivers the accepted bytes once and in order and raises those error values is "
-                  "observed on real loopback connections on every run, not proved")
+    level_text = ("PARTIAL: Lean theorems over a model of the adapter's own logic (h3-quinn/src/lib.rs + datagram.rs + WriteBuf): the "
+                  "framed write loop against every acceptance script of poll_write (pending / partial ok / error, any number of "
+                  "poll_ready calls): accepted bytes are a prefix of the buffer, the rest is held exactly while Pending, Ready(Ok) iff "
+                  "whole buffer, an error is the last call, a second send_data is refused unchanged iff a write is PENDING - a failed "
+                  "write is finished and releases the stream (D-17c repaired); the unframed path poll_send and its callers' loop "
+                  "against every script: accepted bytes in order, each once, the caller's Buf (any chunking) advanced by exactly what "
+                  "was accepted and reported, error last, refused (not a panic, D-17b repaired) while a framed write is unfinished; "
+                  "the receive ownership machine over every operation sequence: recv_id = creation id, never panics, a stop during a "
+                  "pending read is issued exactly once; the unsplit BidiStream only delegates: ids constant before and after split, "
+                  "split yields the halves the same operations would have produced; opening through Connection / opener() / a clone "
+                  "hands out exactly the streams Quinn created, in order, each once, both halves under Quinn's id, errors as "
+                  "ConnectionErrorIncoming; close passes exactly (code, reason); the five error conversions as TOTAL finite tables "
+                  "(every Quinn condition -> its h3 class, code preserved, injective) compared on every run with the match arms, the "
+                  "wrapping arms and, per method of every impl block, the conversion / guard / panic site / delegation re-extracted "
+                  "from the source. Quinn, UDP and tokio are outside the model: that real Quinn delivers the accepted bytes once and "
+                  "in order, numbers streams, grants credit and raises those error values is observed on real loopback connections "
+                  "on every run, not proved")
     level_note = ("trusted: Lean kernel + 3 standard axioms; model tied to the code by running the same scenarios through the real "
-                  "adapter over real Quinn loopback connections (windows 1 byte..default, frames 0..256 KiB, ids in every read/write "
-                  "state, peer close/reset/stop/idle timeout with codes 0..2^62-1) and through the model plus a small stated "
-                  "environment for Quinn (lean/H3/Drv/C17.lean); payload Buf modelled as one contiguous Bytes")
+                  "adapter over real Quinn loopback connections (windows 1 byte..default, frames and unframed buffers 0..256 KiB, ids "
+                  "in every read/write state through split and unsplit streams, streams opened through every opener under stream "
+                  "limits with the peer raising / returning credit, peer close/reset/stop/idle timeout with codes 0..2^62-1 at every "
+                  "call site incl. open/accept/poll_send/datagrams, own close(code, reason) observed by the raw peer, and special "
+                  "set-ups in which real Quinn raises ConnectionClosed, Reset (stateless reset), TransportError, VersionMismatch and "
+                  "ZeroRttRejected) and through the model plus a small stated environment for Quinn (lean/H3/Drv/C17.lean); payload "
+                  "Buf modelled as a list of chunks. Not reachable from a test against real Quinn 0.11 and therefore only in the "
+                  "tables: ConnectionError::CidsExhausted, ReadError::ClosedStream (every path that retires the stream also sets "
+                  "Quinn's all_data_read), ReadError::IllegalOrderedRead (the adapter only reads ordered: the panic arm is dead code)")
     rule = ("cases: scenario templates write-fidelity / refusal / truncating finish / ids / read-state ids / peer reset / peer stop / "
-            "peer close / idle timeout / local conditions / stop during pending read, parameters from the seeded PRNG; "
+            "peer close / idle timeout / local conditions / stop during pending read; second part: unframed fidelity / unframed "
+            "partial writes / poll_send guard / poll_send errors / opening under stream limits / open+accept after failure / "
+            "close(code, reason) / accepting / datagrams / special handshakes (rej kill z0 z0r z0t z0v); the bidirectional stream "
+            "under test is left unsplit in about a third of the cases; parameters from the seeded PRNG; "
             "non-trivial = the scenario ran to the end on the real code (result is not bad-op/timeout/setup-failed/panic); "
-            "distinct = distinct case lines")
+            "distinct = distinct case lines; a case whose result contains a timeout is run a second time by the engine and "
+            "counted (NOTE line)")
     trusted = ["quinn 0.11 / quinn-proto / rustls / tokio / loopback UDP (observed, not modelled)",
                "the environment assumptions about Quinn in lean/H3/Drv/C17.lean (window budget, which Quinn error a peer action "
-               "raises, first stop wins, implicit STOP_SENDING(0) on drop), each exercised by the correspondence run"]
-    assumptions = ["payload Buf is contiguous (Bytes)",
+               "raises, first stop wins, implicit STOP_SENDING(0) on drop, RFC 9000 stream numbering, stream credit = "
+               "max_concurrent + streams the peer finished with, announced when it exceeds 1/8 of max_concurrent, arrived streams "
+               "and datagrams are handed out before the connection's error, a rejected 0-RTT attempt is forgotten), each "
+               "exercised by the correspondence run",
+               "loopback UDP does not lose the (unretransmitted) datagrams of the datagram scenarios"]
+    assumptions = ["the caller's Buf yields its bytes chunk by chunk (list of chunks)",
                    "poll_write accepts at most the bytes it is offered",
                    "the h3::quic call pattern: poll_ready is driven to Ready before poll_finish (a finish with an unfinished "
                    "buffer truncates it: modelled and observed, outside the property's quantifier)"]
@@ -368,21 +714,81 @@ class C17(Prop):
             L.append(g.t_local())
         for _ in range(36 * m):
             L.append(g.t_stop_pending())
+        # ---- second part
+        # the unframed path: every size x a tiny, a middle and the default window setting
+        for n in all_sizes:
+            for win in ([(1, 1, 0)] if n <= 64 * K else []) + [(16, 16, 0), (64, 64, 64), (1000, 1000, 0), (0, 0, 0)]:
+                cfg, shape = g.cfg(send=True, sw=win[0], cw=win[1], tw=win[2])
+                L.append(g.line(cfg, ["sid", "pbg", g.ub(n), "psall", "sid", "fin", "pjoin"]))
+        for _ in range(20 * m):
+            L.append(g.t_unframed(small_sizes, tiny))
+        for _ in range(8 * m):
+            L.append(g.t_unframed(all_sizes[:5], mid + tiny[3:]))
+        for _ in range(4 * m):
+            L.append(g.t_unframed(all_sizes, mid + large))
+        for _ in range(20 * m):
+            L.append(g.t_unframed_partial())
+        for _ in range(20 * m):
+            L.append(g.t_unframed_guard())
+        for _ in range(24 * m):
+            L.append(g.t_unframed_err())
+        for _ in range(30 * m):
+            L.append(g.t_open())
+        for _ in range(30 * m):
+            L.append(g.t_open_err())
+        for _ in range(3 * m):
+            L.append(g.t_close_bad())
+        for _ in range(15 * m):
+            L.append(g.t_accept())
+        for _ in range(20 * m):
+            L.append(g.t_datagram())
+        for _ in range(30 * m):
+            L.append(g.t_special())
         return L
+
+    retries = 0
+
+    def project_all(self, lines, impls):
+        """the engine marks a case it had to run twice (a timeout the first time) with ` #retry`"""
+        out = []
+        n = 0
+        for o in impls:
+            if o.endswith(" #retry"):
+                n += 1
+                o = o[:-len(" #retry")]
+            out.append(o)
+        if len(lines) > 1:
+            self.retries = n
+        return out
+
+    def extra(self, tier, rng, ctx):
+        if self.retries:
+            return [("note", "%d case(s) contained a timeout on the first attempt and were run a second time by the engine "
+                     "(the second result is the one compared)" % self.retries, None)]
+        return []
 
     def klass(self, line, impl):
         kinds = set()
+        for w in line.split()[1].split(","):
+            if w.startswith("hs=") or w == "split=0":
+                kinds.add(w)
         for t in impl.split():
             if "=" not in t:
+                if t in ("split", "oclose", "pkill"):
+                    kinds.add(t)
                 continue
             k, v = t.split("=", 1)
-            v = v.split(":")
+            v = v.split("/")[0].split(":")
             if v[0] == "err":
-                kinds.add("err:" + v[1])
+                kinds.add((k.rstrip("1") + ":" if k[:2] in ("ob", "ou", "ab", "ar", "ps", "dg", "ot") else "") + "err:" + v[1].split("@")[0])
             elif k in ("sid", "rid") and v[0] != "panic":
                 kinds.add(k)
             elif k == "peer":
                 kinds.add("peer:" + (v[-1] if v[-1] == "fin" else v[0]))
+            elif k == "pacc":
+                kinds.add("pacc")
+            elif k[:2] in ("ob", "ou", "ab", "ar", "ps", "dg") or k in ("pdg", "otag", "z0", "zacc", "pclosedr"):
+                kinds.add(k.rstrip("1") + "=" + ("n" if v[0].isdigit() else v[0]))
             elif v[0] in ("ok", "data", "end", "cancelled"):
                 continue
             else:
@@ -390,7 +796,9 @@ class C17(Prop):
         return "+".join(sorted(kinds)) or impl.split(" ")[0]
 
     def trivial(self, line, impl):
-        return impl in ("bad-op", "timeout", "setup-failed", "panic", "abort") or "timeout" in impl.split("=")
+        if impl in ("bad-op", "timeout", "setup-failed", "panic", "abort"):
+            return True
+        return any(t.split("=", 1)[1].split("/")[0].startswith("timeout") for t in impl.split() if "=" in t)
 
     def shrink_candidates(self, line):
         w = line.split()
@@ -406,9 +814,13 @@ class C17(Prop):
                     out.append(" ".join(w[:2] + ops[:i] + [":".join(p[:2] + [str(n), p[3]])] + ops[i + 1:]))
             if p[0] == "pw" and int(p[1]) > 1:
                 out.append(" ".join(w[:2] + ops[:i] + ["pw:%d:%s" % (int(p[1]) // 2, p[2])] + ops[i + 1:]))
+            if p[0] == "ub" and int(p[1]) > 1:
+                out.append(" ".join(w[:2] + ops[:i] + ["ub:%d:%s" % (int(p[1]) // 2, p[2])] + ops[i + 1:]))
+                if len(p) > 3:
+                    out.append(" ".join(w[:2] + ops[:i] + [":".join(p[:3])] + ops[i + 1:]))
         kv = w[1].split(",")
         for i, x in enumerate(kv):
-            if x.split("=")[0] in ("skip", "sw", "cw", "tw"):
+            if x.split("=")[0] in ("skip", "sw", "cw", "tw", "split"):
                 out.append(" ".join([w[0], ",".join(kv[:i] + kv[i + 1:])] + ops))
         return out
 
